@@ -92,7 +92,8 @@ def check_one(mido, specs, acc, via_file, long=None):
     if acc.evals % 97 == 0:
         failed_merge(mido, acc)
     if VARIANT[0] == 'plain' and any(specs) and (
-            (acc.evals // 3) % 5 == 0 if long is None else len(specs[0]) <= 60):
+            (acc.evals // 3) % 5 == 0 if long is None
+            else len(specs[0]) * len(specs) <= 400):
         # the same case with messages rebuilt from dicts (fresh, not interned
         # strings) and with frozen messages
         for v in ('rebuilt', 'frozen'):
@@ -179,7 +180,8 @@ def check_one(mido, specs, acc, via_file, long=None):
                           dict(case, via=name))
     # history: merge, change one delta IN PLACE (same track and message
     # objects), merge again - the second result must follow the edit
-    if any(tracks) and not acc.viol and VARIANT[0] != 'frozen':
+    if any(tracks) and not acc.viol and VARIANT[0] != 'frozen' and (
+            long is None or len(specs[0]) * len(specs) <= 400):
         for name, fn in variants:
             try:
                 fn()
@@ -261,11 +263,12 @@ def worker(shard):
     failed_merge(mido, acc)
     kind = shard[0]
     if kind == 'long':
-        k = shard[1]
+        k, df = shard[1], shard[2]
+        cap = 4500 if common.tier() == 'thorough' else 2600
         for n in LONG_L:
-            if k * n > 4500:
+            if k * n > cap:
                 continue
-            for df in DELTA_FAMILIES:
+            if True:
                 for kf in KIND_FAMILIES:
                     check_one(mido, long_spec(k, n, df, kf), acc, k * n <= 600,
                               long=(k, n, df, kf))
@@ -309,7 +312,7 @@ def run():
     shards += [('one', s, n1) for s in SYMBOLS]
     shards += [('two', t0, n2) for t0 in seqs_upto(n2)]
     shards += [('three', t0, n3) for t0 in seqs_upto(n3)]
-    shards += [('long', k) for k in LONG_K]
+    shards += [('long', k, df) for k in LONG_K for df in DELTA_FAMILIES]
     run_shards(worker, shards, rep)
     rep.coverage['exhaustive'] = True
     rep.coverage['rule'] = (
@@ -319,7 +322,7 @@ def run():
         f'every triple of length <= {n3} each, plus empty lists/tracks; each '
         f'with skip_checks False/True (and through MidiFile.merged_track); '
         f'plus long cases: {list(LONG_K)} tracks x {list(LONG_L)} events each '
-        f'(<= 4500 events in all) x {len(DELTA_FAMILIES)} delta patterns x '
+        f'(<= 2600 events in all, 4500 thorough) x {len(DELTA_FAMILIES)} delta patterns x '
         f'{len(KIND_FAMILIES)} event-kind patterns. '
         f'Oracle: absolute tick of every non-EOT message, order by (tick, '
         f'track, index), single final EOT, total = longest track, inputs '
